@@ -442,6 +442,16 @@ class PartialOps:
     def _conv(self, fn: FuncInfo, node: ast.Call, out: List[PSite]) -> None:
         fname = node.func.id  # type: ignore[union-attr]
         arg = node.args[0]
+        # a local bound once to float(<text>) is read through: `n = float(t)` ; `int(n)` is `int(float(t))`
+        if fname == "int" and isinstance(arg, ast.Name):
+            defs = [
+                a.value for a in ast.walk(fn.node)
+                if isinstance(a, ast.Assign) and len(a.targets) == 1 and isinstance(a.targets[0], ast.Name) and a.targets[0].id == arg.id
+            ]
+            stores = sum(1 for n in ast.walk(fn.node) if isinstance(n, ast.Name) and n.id == arg.id and isinstance(n.ctx, (ast.Store, ast.Del)))
+            if len(defs) == 1 and stores == 1 and isinstance(defs[0], ast.Call) and isinstance(defs[0].func, ast.Name) and defs[0].func.id == "float" \
+                    and len(defs[0].args) == 1:
+                arg = defs[0]
         # inner conversion of int(float(x)) is reported at the outer call
         names = self._tynames(fn, arg)
         inner_float = (
